@@ -205,6 +205,11 @@ def parse_trace_msg(t, sites):
             msg = msg[:-1]      # stream_tracer appends its own newline
     m = re.match(r'(.+) with\.\n', msg)
     if not m:
+        # unknown trace wording: judged by content (which expectation, its text, the values printed)
+        e, sh, v = sites.ent(file, line)
+        wants = [w for w in ((v.get('name'), v.get('call')) if v else ()) if w]
+        o.update(ent=e, sh=sh, nameok=1 if (not wants or any(w in msg for w in wants)) else 0,
+                 args=sorted({int(x) for x in re.findall(r'-?\d{1,9}', msg)})[:40], res='other')
         return o
     o['ent'], o['sh'], o['nameok'] = sites.mention(m.group(1), file, line)
     rest = msg[m.end():]
